@@ -228,8 +228,9 @@ def sched_scenarios(tier, runs=None):
 
 
 # ----------------------------------------------------------------------------------------- listener (Accept / Expect / Close)
-LISTEN_INVS = ["C06_TakeOver", "C06_NoStaleEntry", "C06_SessionOnce", "C06_Outcome", "C06_NoPanic", "C06_ListenNoStall", "C15_OpenIffAccepted"]
-LISTEN_DEVS = [("ExpectDeletesForeignEntry", "C06_TakeOver"), ("ExpectDeletesForeignEntry", "C06_ListenNoStall"),
+LISTEN_INVS = ["C06_TakeOver", "C06_NoStaleEntry", "C06_SessionOnce", "C06_Outcome", "C06_NoPanic", "C06_ExpectGetsItsSession", "C06_ListenNoStall",
+               "C15_OpenIffAccepted"]
+LISTEN_DEVS = [("ExpectDeletesForeignEntry", "C06_TakeOver"), ("ExpectDeletesForeignEntry", "C06_ExpectGetsItsSession"),
                ("ExpectLeavesEntry", "C06_NoStaleEntry"), ("ExpectLeavesEntry", "C06_ListenNoStall"),
                ("CloseClosesQueue", "C06_NoPanic"), ("HandOverKeepsEntry", "C06_NoStaleEntry")]
 
